@@ -269,6 +269,9 @@ def rsched_replay(binary, path):
             m = re.search(r"budget=(\d+)", line)
             if m:
                 args += ["--budget", m.group(1)]
+            m = re.search(r"freeze=(\d+)", line)
+            if m and m.group(1) != "0":
+                args += ["--freeze", m.group(1)]
     env = dict(os.environ)
     env.update(SAN_ENV)
     return subprocess.run([binary, "--replay", path] + args, env=env).returncode
